@@ -298,6 +298,32 @@ class Repeat(Sym):
         self.part = part
 
 
+class SymList(Sym):
+    """a list of symbolic length n >= 0 whose elements are objects of one class; field f of element i is the
+    uninterpreted function application funcs[f](i).  Read-only: length, truth, indexing, and iteration under an
+    inductive loop invariant."""
+    __slots__ = ('name', 'n', 'cls', 'funcs', 'pytype')
+
+    def __init__(self, name, n, cls, funcs):
+        self.name = name
+        self.n = n
+        self.cls = cls
+        self.funcs = funcs
+        self.pytype = list
+
+    def __repr__(self):
+        return f"SymList({self.name})"
+
+
+class EnumSym(Sym):
+    """enumerate(SymList)"""
+    __slots__ = ('lst', 'start')
+
+    def __init__(self, lst, start=0):
+        self.lst = lst
+        self.start = start
+
+
 class SFloat(Sym):
     """floats are not modelled; only their kind is known"""
     __slots__ = ('name',)
